@@ -252,6 +252,15 @@ def check(pid, tier):
                 run_stage(prop, stage, tier, rng, driver, res, known)
             except Exception as e:
                 res.internal.append("stage %s failed: %s" % (stage["name"], traceback.format_exc()[-1500:]))
+    # 3b. stages that exist for the search: when a proof obligation, the correspondence or the machinery is broken and no
+    #     failing input has been found yet, the stages marked `fallback` run in the quick tier too (bounded by their generator)
+    if driver and tier == "quick" and not res.violations and (res.corr or not au["ok"] or res.internal):
+        for stage in prop["stages"]:
+            if stage.get("fallback") and stage.get("thorough_only"):
+                try:
+                    run_stage(prop, stage, tier, rng, driver, res, known)
+                except Exception as e:
+                    res.internal.append("stage %s failed: %s" % (stage["name"], traceback.format_exc()[-1500:]))
     # 4. neighbourhood search when only the correspondence / a proof is broken
     searched = 0
     if driver and not res.violations and (res.corr or not au["ok"] or res.internal):
